@@ -16,7 +16,7 @@ from ..state import State, Obj, IntV, PtrV, NULL, MAXLEN
 from ..terms import Lin, base_atoms, ZERO
 from ..effects import func_roles
 from . import own
-from .common import short, fn_loc, slot_subst, subst, robust
+from .common import short, fn_loc, slot_subst, subst, robust, class_of
 
 LEVEL = 'proof'
 EXPLANATION = ('abstract interpretation of the comparison cores with sizes free over 64 bits and the prefix comparator as an opaque '
@@ -424,6 +424,7 @@ def derived(run, m, F, E):
 
 
 UNSIGNED_CHAR = [False]
+REFERENCE_CONFIG = ('c++20', ())
 
 
 def own_fmt(env):
@@ -603,6 +604,32 @@ def case_maps(run, m, F):
     return n
 
 
+NUL_STOPPING = ('strcmp', 'strncmp', 'strcasecmp', 'strncasecmp', 'strcoll', 'wcscmp', 'wcsncmp', 'wcscasecmp', 'wcscoll', 'strstr', 'strchr', 'strrchr')
+
+
+def nul_blind(run, m, F, tag='', only=None):
+    """R06.7: the comparison of two strings is over all size() units, embedded NULs included; the C primitives that stop at the first
+    NUL (strcmp family) cannot decide it.  No function of ST::string / ST::buffer<T> / the private comparison helpers may hand the
+    string's own storage to one of them.  (Expected count on the library: zero; a positive control in gen/controls.cpp must fire.)"""
+    n = 0
+    for name in F.lib:
+        f = m.func(name)
+        if only is not None and not only(f):
+            continue
+        cls = class_of(f)
+        if only is None and not (cls.startswith('ST::string') or cls.startswith('ST::buffer<') or f.dem.startswith('_ST_PRIVATE::compare_') or
+                                 f.dem.startswith('_ST_PRIVATE::find_') or cls in ('ST::hash', 'ST::hash_i', 'ST::equal_i', 'ST::less_i')):
+            continue
+        n += 1
+        for (i, ts, k) in F.calls[name]:
+            for t in ts:
+                if t in NUL_STOPPING or m.dem(t) in NUL_STOPPING:
+                    run.ob('R06.7' + tag, short(f.dem), False, 'calls %s: it stops at the first NUL, so strings that differ only after an embedded NUL compare / search alike' % t,
+                           loc=f.loc(i), disc=t)
+    run.ob('R06.7' + tag, 'no NUL-stopping C primitive in the comparison / search members', True, '%d functions scanned' % n)
+    return n
+
+
 def check(run):
     m = run.module()
     UNSIGNED_CHAR[0] = '-funsigned-char' in run.config[1]
@@ -617,5 +644,16 @@ def check(run):
     run.floor('derived members / operators', derived(run, m, F, E), 14)
     ci_step(run, m, F, E)
     run.floor('case maps', case_maps(run, m, F), 2)
+    run.floor('members scanned for NUL-stopping primitives', nul_blind(run, m, F), 300)
+    if run.config == REFERENCE_CONFIG:
+        import os
+        from .. import facts as factsmod, frontend
+        mc = run.module(tu='controls.cpp')
+        mc.repo_include = os.path.join(frontend.VERIF, 'gen') + '/'
+        Fc = factsmod.Facts(mc)
+        sub = type(run)(run.prop, run.tier)
+        nul_blind(sub, mc, Fc, only=lambda f: 'verif_controls' in f.dem)
+        run.need(any(o['verdict'] == 'violated' for o in sub.obs), 'positive control gen/controls.cpp: rule R06.7 did not fire on its planted violation')
+        run.counts['positive controls fired'] = 1
     for o in run.obs[:3] + [o for o in run.obs if o['rule'] == 'R06.3'][:2]:
         run.sample(dict(rule=o['rule'], subject=o['subject'], case=o['disc'], verdict=o['verdict'], detail=o['detail'][:160]))
